@@ -85,7 +85,7 @@ func genWSCase(r *simrt.Rand, tier string) *WSCase {
 			}
 			p.Writers = append(p.Writers, ws)
 		}
-		p.End = r.PickS("", "", "reset", "appclose", "none")
+		p.End = r.PickS("", "", "reset", "appclose", "none", "badframe")
 		if len(p.Msgs) > 0 && r.Bool(0.1) {
 			p.PanicAt = 1 + r.Intn(len(p.Msgs))
 		}
@@ -553,6 +553,11 @@ func runWSCase(t *testing.T, c *WSCase, trace bool) *common.Outcome {
 					cl := make([]byte, 2)
 					binary.BigEndian.PutUint16(cl, 1000)
 					send(stream.EncodeFrame(stream.Frame{Fin: true, Op: 8, Masked: true, Payload: cl}, [4]byte{1, 2, 3, 4}))
+				case "badframe":
+					// after everything else: a frame with a reserved opcode. The endpoint must
+					// fail the connection (RFC 6455 section 5.2), on every upgrade path.
+					simrt.WaitStuck("writers", 2*time.Second, func() bool { return cs.writersDone >= len(plan.Writers) && len(cs.gotMsgs) >= len(plan.Msgs) })
+					send(stream.EncodeFrame(stream.Frame{Fin: true, Op: 11, Masked: true, Payload: []byte("x")}, [4]byte{9, 9, 9, 9}))
 				case "reset":
 					simrt.WaitStuck("reset-point", 10*time.Millisecond, func() bool { return len(cs.gotMsgs) >= (len(plan.Msgs)+1)/2 })
 					closeRace = closeRace || pendingWriters > 0 || cs.inCB > 0
@@ -600,6 +605,10 @@ func runWSCase(t *testing.T, c *WSCase, trace bool) *common.Outcome {
 			}
 			if !ended && len(cs.gotMsgs) != len(cs.plan.Msgs) {
 				fail("message-lost", class, "connection %d: %d messages sent, %d delivered by quiescence; log: %v", i, len(cs.plan.Msgs), len(cs.gotMsgs), ev)
+				return
+			}
+			if cs.plan.End == "badframe" && !cs.eof {
+				fail("protocol-violation-not-failed", class, "connection %d: the client sent a frame with a reserved opcode after its messages, but the connection is still open at quiescence; log: %v", i, ev)
 				return
 			}
 			if cs.plan.End != "none" && cs.closes != 1 {
